@@ -113,14 +113,18 @@ func canon(s []span) ([]span, error) {
 	allEmpty := true
 	// Merge overlapping/adjoining elements.
 	out := s[:0]
+	merged := make([]bool, len(s)) // Elements already folded into an earlier one.
 	for i := 0; i < len(s); i++ {
 		this := s[i]
-		if this.rank == empty {
+		if merged[i] || this.rank == empty {
 			continue
 		}
 		allEmpty = false
 		// Merge as many as possible into this element.
 		for j := i + 1; j < len(s); j++ {
+			if merged[j] {
+				continue
+			}
 			next := s[j]
 			if !this.max.equal(next.min) { // If equal, we can merge unless both are open (handled below)
 				if len(this.max.pre) == 0 {
@@ -151,8 +155,10 @@ func canon(s []span) ([]span, error) {
 			if !equalPrerelease(this.min, this.max) || !equalPrerelease(this.min, next.min) || !equalPrerelease(this.min, next.max) {
 				continue
 			}
-			// We'll process the element now, so on the next outer loop, skip it.
-			i++
+			// We'll process the element now, so the outer loop must skip it.
+			// It need not be the one right after i: elements that cannot
+			// be merged are stepped over above and must still be emitted.
+			merged[j] = true
 			if next.rank == empty {
 				continue
 			}
